@@ -1,4 +1,4 @@
-"""C14 — built-in reports: the libtest line protocol clauses only (DESIGN §4 C14)."""
+"""C14 — built-in reports: structural clauses of the libtest line protocol and of the JSON / JUnit / terminal writers' per-event tables (DESIGN §4 C14, §12)."""
 import re
 
 from . import analysis as A
@@ -20,9 +20,20 @@ each Step variant maps to the test event of the matching kind; (R4) the suite ve
 event deciding a test case's result is never a skipped failure and the (event -> success/skipped/failure) table.
 Declined: JSON, JUnit and terminal writers, and the parsed-back content of any report (document text is runtime data).
 Added after the second seeded round: (R6) Cucumber JSON: before a Feature / Element entry is pushed all existing entries of that list are searched (parser-error entries excepted).
+Added in the third build round (per-event tables of the other reporters, deep path tables of their handle_event with the writer's own
+methods inlined): (R7) Cucumber JSON: per event shape (2 levels x {Background, Step} x {Passed, Skipped, Failed x 3 errors}, hooks
+{Before, After} x {Passed, Failed}) exactly one entry is pushed, into `steps` / `before` / `after` of the element looked up with the
+event's own feature / rule / scenario and the type `background` | `scenario`, carrying the status the event states, the step's own
+keyword / line / text, an error message iff it failed (built from the event's error) and the logs buffered so far; Started events and
+brackets record nothing; a parser error is one entry of `features`; the document is serialised into `output` on run-Finished only.
+(R8) JUnit: every scenario event but Finished is buffered once as it is; Finished builds one test case from exactly the taken buffer for
+the event's own feature / rule / scenario and adds it to the open suite; Feature::Started opens, Feature::Finished moves the suite into the
+report; a parser error is one suite with one failure case; the XML is written on run-Finished only.  (R9) terminal writer: per event
+shape one printing routine is called for the event's own step (and error), and it is the routine of the matching status (style sets
+`ok` / `skipped` / `err`); Hook Started / Passed and Scenario::Finished print nothing.
 """
-DECLINED = ["Cucumber JSON writer", "JUnit XML writer beyond the outcome classification of a test case (R5)", "terminal (Basic) writer", "well-formedness / escaping of any document",
-            "suite totals as numbers"]
+DECLINED = ["text of any report beyond the recorded status / target list / message presence (R7-R9): escaping, well-formedness, indentation, durations",
+            "terminal writer: cursor arithmetic of re-printed lines and capture highlighting (value-level)", "suite totals as numbers"]
 ASSUMPTIONS = ["Libtest sits behind Normalize (documented), so a feature's events are contiguous"]
 
 LT = "writer::libtest::Libtest"
@@ -650,4 +661,102 @@ def r8(F, R):
     R.floor(12)
 
 
-RULES = [("R8", r8, ["all", "junit"]), ("R7", r7, ["all", "json"]), ("R6", r6, ["all", "json"]), ("R5", r5, ["all", "junit"]), ("R1", r1, None), ("R2", r2, None), ("R3", r3, None), ("R4", r4, None)]
+# ---- R9: plain terminal writer — which printing routine serves which event (dispatch table + style sets) -------------------
+def r9(F, R):
+    """Terminal writer (writer::Basic): per scenario-event shape exactly one printing routine is called — for the event's own step, and
+    for a failure with the event's error — and it is the routine of the matching status: the routine serving Passed prints in the `ok`
+    style (never `err` / `skipped`), the one serving Skipped in `skipped`, the ones serving Failed steps and hooks in `err`; Hook
+    Started / Passed and Scenario::Finished print nothing; a Log prints its message; Scenario::Started prints the scenario's name."""
+    from . import deep as D
+    from .termtypes import Typer
+    BA = "writer::basic::Basic"
+    own = lambda cb: bool(cb.impl and cb.impl.get("self_adt") == BA and not cb.impl.get("trait"))
+    disp = [b for b in F.crate_bodies() if own(b) and any("event::RetryableScenario" in t for t in b.locals[1:b.arg_count + 1])]
+    if len(disp) != 1:
+        raise Unverifiable(f"Basic's scenario-event dispatcher: {len(disp)}")
+    disp = disp[0]
+    WRITE = r"WriteStrExt::write_line$|io::Write::write(_all|_fmt)?$|WriteStrExt::write_str$"
+
+    def prints_directly(b):
+        return any(callee_is(t, WRITE) for nb in F.nested(b) for _, t in nb.calls())
+
+    def styles_of(b):
+        out = set()
+        for nb in F.nested(b):
+            for _, t in nb.calls():
+                m = re.search(r"writer::out::Styles::(\w+)$", callee_path(t) or "")
+                if m:
+                    out.add(m.group(1))
+        return out
+    owns = [b for b in F.crate_bodies() if own(b) and b.kind in ("Fn", "AssocFn")]
+    printers = {b.name: b for b in owns if prints_directly(b) and b is not disp and styles_of(b) - {"lines_count"} or (prints_directly(b) and b is not disp and
+                                                                                                                  not any(F.callee_body(t, b.crate) is not None and own(F.callee_body(t, b.crate)) for nb in F.nested(b) for _, t in nb.calls()))}
+    helpers = [b for b in owns if b.name not in printers and not prints_directly(b)]
+    opq = "^(" + "|".join(re.escape(n) for n in list(printers) + [b.name for b in helpers if not any(F.callee_body(t, b.crate) is not None and F.callee_body(t, b.crate).name in printers
+                                                                                                     for nb in F.nested(b) for _, t in nb.calls())]) + ")$"
+    dp = D.Deep(F, disp, inline_only=own, opaque=opq, max_paths=4000)
+    rows = dp.run()
+    if not rows or any(p.cut for p in rows):
+        raise Unverifiable("Basic::scenario: empty path table or a loop")
+    T = Typer(F, disp, dp)
+    ev_arg = [i for i in range(1, disp.arg_count + 1) if "event::RetryableScenario" in disp.locals[i]][0]
+    seen = {}
+    for p in rows:
+        d = {}
+        for a, o in p.conds:
+            if a[0] == "discr" and isinstance(o, str):
+                adt = dp.adt_of.get(a, "")
+                if adt.startswith("event::") and D.mentions(a[1], lambda x: x == ("arg", ev_arg)):
+                    d.setdefault(adt.rsplit("::", 1)[-1], o)
+        pc = [e for e in p.effects if e[0] == "call" and e[1] in printers]
+        early = D.is_variant(p.ret, "std::result::Result", "Err") or (isinstance(p.ret, tuple) and p.ret and p.ret[0] == "variant" and p.ret[2] == "Err")
+        kind = d.get("Scenario")
+        sub = d.get("Step") if kind in ("Background", "Step") else d.get("Hook") if kind == "Hook" else None
+        for k1 in (kind or "?").split("|"):
+            for s1 in (sub.split("|") if sub else [None]):
+                seen.setdefault((k1, s1), []).append((pc, early, p))
+    STYLE = {"Passed": ("ok", {"err", "skipped"}), "Skipped": ("skipped", {"ok", "err"}), "Failed": ("err", {"ok", "skipped"})}
+    for (kind, sub), lst in sorted(seen.items(), key=str):
+        inst = f"terminal/{kind}" + (f"::{sub}" if sub else "")
+        full = [(pc, p) for pc, early, p in lst if not early]
+        if kind in ("Background", "Step") and sub in STYLE or (kind == "Hook" and sub == "Failed"):
+            must, never = STYLE[sub]
+            ok = bool(full) and all(len(pc) == 1 for pc, _ in full)
+            why = "not exactly one printing routine is called"
+            if ok:
+                names = {pc[0][1] for pc, _ in full}
+                ok = len(names) == 1
+                why = f"different routines print it: {sorted(names)}"
+            if ok:
+                pb = printers[next(iter(names))]
+                st = styles_of(pb)
+                ok = must in st and not (st & never)
+                why = f"it is printed by {pb.short.rsplit('::', 1)[-1]}, which uses the styles {sorted(st - {'lines_count', 'bold', 'bright'})} (expected `{must}`, never {sorted(never)})"
+            if ok:
+                for pc, p in full:
+                    roots = set().union(*[T.roots(a) for a in pc[0][2]])
+                    src = f"@{kind}.0" if kind != "Hook" else None
+                    if src and not any(r.endswith(src) or (src + ".") in r for r in roots):
+                        ok, why = False, f"the routine is not given the event's own step (arguments derive from {sorted(roots)[:6]})"
+                    if sub == "Failed":
+                        idx = "3" if kind != "Hook" else "1"
+                        if not any(re.search(r"@Failed\." + idx + r"$", r) for r in roots):
+                            ok, why = False, "the routine is not given the event's error"
+            R.check(ok, inst, disp, f"printed once, in the `{must}` style, for the event's own step", f"terminal writer, {kind} {sub}: {why}")
+        elif (kind == "Hook" and sub in ("Started", "Passed")) or kind == "Finished":
+            R.check(all(not pc for pc, _ in full), inst, disp, "prints nothing", f"terminal writer prints something for {kind} {sub or ''}")
+        elif kind == "Log":
+            ok = bool(full) and all(len(pc) == 1 and any(r.endswith("@Log.0") for a in pc[0][2] for r in T.roots(a)) for pc, _ in full)
+            R.check(ok, inst, disp, "the message is printed once", "terminal writer does not print a Log event's message exactly once")
+        elif kind == "Started":
+            ok = bool(full) and all(len(pc) == 1 for pc, _ in full)
+            R.check(ok, inst, disp, "the scenario header is printed once", "terminal writer does not print exactly one header for Scenario::Started")
+        elif kind in ("Background", "Step") and sub == "Started":
+            ok = bool(full) and all(len(pc) <= 1 and all(not (styles_of(printers[c[1]]) & {"ok", "err", "skipped"}) for c in pc) for pc, _ in full)
+            R.check(ok, inst, disp, "at most the pending line is printed", "terminal writer prints a result line for Step::Started")
+    want = {(k, s1) for k in ("Background", "Step") for s1 in ("Started", "Passed", "Skipped", "Failed")} | {("Hook", "Started"), ("Hook", "Passed"), ("Hook", "Failed"), ("Log", None), ("Started", None), ("Finished", None)}
+    R.check(want <= set(seen), "terminal/table-complete", disp, f"{len(seen)} event shapes", f"rows missing from the terminal writer's table: {sorted(map(str, want - set(seen)))[:4]}")
+    R.floor(12)
+
+
+RULES = [("R9", r9, None), ("R8", r8, ["all", "junit"]), ("R7", r7, ["all", "json"]), ("R6", r6, ["all", "json"]), ("R5", r5, ["all", "junit"]), ("R1", r1, None), ("R2", r2, None), ("R3", r3, None), ("R4", r4, None)]
